@@ -649,6 +649,67 @@ C_PP = Contract(f"{DR}:DriftCorrection.preprocess", setup=pp_setup, requires=pp_
 C_PP3 = Contract(f"{DR}:DriftCorrection.preprocess", setup=lambda ctx: pp_setup(ctx, 3, ("list",), (1, 4)), requires=pp_requires, ensures=pp_ensures, inline=PP_INLINE)
 C_PP4 = Contract(f"{DR}:DriftCorrection.preprocess", setup=lambda ctx: pp_setup(ctx, 4, ("list",), (1, 4)), requires=pp_requires, ensures=pp_ensures, inline=PP_INLINE)
 
+# ------------------------------------------------------------------------------------------------
+# scan directions as stored: the setter and the constructor keep the GIVEN angles (every real, in particular [180, 360))
+# ------------------------------------------------------------------------------------------------
+VAL = "quantem.core.utils.validators"
+
+
+def sd_value(ctx):
+    """the angles as the caller passes them: an ndarray of symbolic length or a Python list (here of 3 numbers, one an int)"""
+    if ctx.branch(ctx.fresh("angles_given_as_ndarray", "bool").t):
+        n = ctx.fresh("n_angles", "int")
+        ctx.assume(n.t >= 0)
+        return ctx.fresh_arr("angles", (n,), "real"), "ndarray"
+    return [ctx.fresh("angle0", "real"), ctx.fresh("angle1", "int"), ctx.fresh("angle2", "real")], "list"
+
+
+def sd_setup(ctx):
+    value, kind = sd_value(ctx)
+    old = ctx.fresh_arr("angles_stored_before", (2,), "real")  # the attribute already holds OTHER angles from an earlier assignment
+    return NS(self=Obj(DC, dict(_scan_direction_degrees=old)), value=value, case=kind)
+
+
+def given_angles(value):
+    if isinstance(value, SymArr):
+        return value.shape[0], (lambda a: rterm(value.fn(a)))
+    vals = list(value)
+    return len(vals), (lambda a: rterm(V.from_list(vals, kind="real").fn(a)))
+
+
+def stored_angles_clauses(o, value):
+    st = o.fields.get("_scan_direction_degrees")
+    n, g = given_angles(value)
+    ok = isinstance(st, SymArr) and st.ndim == 1
+    a = I("a")
+    return [("stored-angles-are-a-1d-array-of-the-given-length", AND(ok, lift(st.shape[0]) == lift(n)) if ok else False),
+            # no folding, wrapping or re-ordering: the resampling geometry is 2pi-periodic, not pi-periodic
+            ("stored-angle[a]==given-angle[a]-for-every-real-angle(in-particular-[180,360))",
+             False if not ok else forall(a, implies(AND(a >= 0, a < lift(n)), rterm(st.fn(a)) == g(a))))]
+
+
+def sd_modifies(ctx, s):
+    n, _ = given_angles(s.value)
+    s.self.fields["_scan_direction_degrees"] = ctx.fresh_arr("angles_stored", (n,), "real")
+
+
+C_SDSET = Contract(f"{DR}:DriftCorrection.scan_direction_degrees.fset", setup=sd_setup, ensures=lambda s: stored_angles_clauses(s.self, s.value),
+                   modifies=sd_modifies, inline=[f"{VAL}:ensure_valid_array"])
+
+
+def dcinit_setup(ctx):
+    value, kind = sd_value(ctx)
+    good = ctx.branch(ctx.fresh("token_is_the_class_token", "bool").t)
+    H, W = ctx.fresh("H", "int"), ctx.fresh("W", "int")
+    images = [ImageStub((H, W), ctx.fresh_arr(f"image{a}", (H, W), "real")) for a in range(2)]
+    return NS(self=Obj(DC, {}), images=images, scan_direction_degrees=value, _token=DC._token if good else None, good=good, case=kind)
+
+
+C_DCINIT = Contract(f"{DR}:DriftCorrection.__init__", setup=dcinit_setup,
+                    ensures=lambda s: [("keeps-the-images", s.self.fields.get("_images") is s.images)] + stored_angles_clauses(s.self, s.scan_direction_degrees),
+                    raises={RuntimeError: lambda s: s._token is not DC._token})
+
+
 # opaque collaborator (NOT verified): error bookkeeping; assumed frame = writes only self.error_track
 C_CALCERR = Contract(f"{DR}:DriftCorrection.calculate_error", setup=lambda ctx: NS(self=Obj(DC, {}), mode=0),
                      note="assumed frame: writes only self.error_track (not verified)")
@@ -755,7 +816,7 @@ def _foreign(con, mod):
 # sample a of the window at centre + (a - centre_index)/up, returned shift = position of the local peak) are part of this check
 C13_CONTRACTS = [_foreign(C13.C_CCS, C13), _foreign(C13.C_CCS2, C13), _foreign(C13.C_DFTN, C13)]
 
-CONTRACTS = [C_PP4, C_PP3, C_PP, C_AT] + C13_CONTRACTS + [C_KDE, C_TC, C_WI, C_TR, C_DI_INIT, C09.C_SUBDIVIDE, C09.C_GENERATE]
+CONTRACTS = [C_PP4, C_PP3, C_PP, C_AT] + C13_CONTRACTS + [C_KDE, C_TC, C_WI, C_TR, C_DI_INIT, C_SDSET, C_DCINIT, C09.C_SUBDIVIDE, C09.C_GENERATE]
 CALLSITE_ONLY = [C_CALCERR, C_CCS]
 
 # ------------------------------------------------------------------------------------------------
@@ -875,7 +936,28 @@ def lemma_fixed_point(ctx):
          r == -1 / R_(up) - (R_(m1) + R_(m2)) * R_(n))]
 
 
-LEMMAS = [Lemma("fixed-point-through-the-cross-correlation-contract", lemma_fixed_point, uses=["cross_correlation_shift (C13)", "dft_upsample (C13)", "DriftCorrection.align_translation"]),
+def lemma_given_angle(ctx):
+    """constructor / setter post (stored angle == given angle, no range restriction) + preprocess post (scan vectors = rotation by
+    the STORED angle, knots on the property's lines for it) ==> the geometry is the property's for the GIVEN scan direction over
+    the whole range [0, 360), in particular for frames scanned at 180..360 degrees; folding such an angle by 180 degrees would
+    reflect every pixel through the canvas centre (second obligation; sin/cos(x - pi) = -sin/cos(x) as hypothesis: textbook)."""
+    from pyvc import reals
+
+    given, stored, dr, dc = Rl("given_deg"), Rl("stored_deg"), Rl("dr"), Rl("dc")
+    fg, sg = rotation(given)
+    fs, ss = rotation(stored)
+    folded = given - 180
+    ff, sf = rotation(folded)
+    xg, xf = -(given * V.PI / 180), -(folded * V.PI / 180)
+    half_turn = [reals.F["sin"](xf) == -reals.F["sin"](xg), reals.F["cos"](xf) == -reals.F["cos"](xg)]
+    return [("stored=given=>scan-vectors-are-the-rotation-by-the-given-angle", [given >= 180, given < 360, stored == given],
+             AND(fs[0] == fg[0], fs[1] == fg[1], ss[0] == sg[0], ss[1] == sg[1])),
+            ("an-angle-folded-by-180-degrees-reflects-every-pixel-through-the-centre", half_turn,
+             AND(dc * ff[0] + dr * sf[0] == -(dc * fg[0] + dr * sg[0]), dc * ff[1] + dr * sf[1] == -(dc * fg[1] + dr * sg[1])))]
+
+
+LEMMAS = [Lemma("geometry-for-the-given-scan-direction", lemma_given_angle, uses=["DriftCorrection.__init__", "DriftCorrection.scan_direction_degrees.fset", "DriftCorrection.preprocess"]),
+          Lemma("fixed-point-through-the-cross-correlation-contract", lemma_fixed_point, uses=["cross_correlation_shift (C13)", "dft_upsample (C13)", "DriftCorrection.align_translation"]),
           Lemma("geometry", lemma_geometry, uses=["DriftCorrection.preprocess", "DriftInterpolator.transform_coordinates"]),
           Lemma("knot-counts-agree", lemma_knot_counts_agree, uses=["DriftInterpolator.transform_coordinates"]),
           Lemma("rotation", lemma_rotation), Lemma("bilinear-weights", lemma_bilinear),
@@ -1214,6 +1296,33 @@ def fam_align_bookkeeping(tier="quick", seed=0):
                     yield dict(H=H, W=W, N=N, K=K, zero=zero, seed=seed + i)
 
 
+def rt_angles(inp):
+    """the scan directions a DriftCorrection stores (constructor via from_data, and re-assignment through the setter) are the
+    given ones, for angles anywhere in [0, 360) and given as list / ndarray / ints."""
+    import numpy as np
+    from quantem.imaging.drift import DriftCorrection
+
+    ang = inp["angles"]
+    given = np.array(ang, float) if inp.get("as_array") else list(ang)
+    imgs = [_test_image(4, 5, a) for a in range(len(ang))]
+    d = DriftCorrection.from_data(imgs, given)
+    notes = []
+    got = np.asarray(d.scan_direction_degrees, float)
+    if got.shape != (len(ang),) or not _close(got, np.array(ang, float), 1e-12):
+        notes.append(f"constructor stored {got.tolist()} for given {list(ang)}")
+    d.scan_direction_degrees = given[::-1]
+    got = np.asarray(d.scan_direction_degrees, float)
+    if got.shape != (len(ang),) or not _close(got, np.array(ang, float)[::-1], 1e-12):
+        notes.append(f"setter stored {got.tolist()} for given {list(ang)[::-1]}")
+    return dict(violated=bool(notes), observed="; ".join(notes) or "ok", expected="stored scan directions == given scan directions")
+
+
+def fam_angles(tier="quick", seed=0):
+    for ang in ([0, 90], [0.0, 90.0, 180.0, 270.0], [179.999, 180.0, 180.001], [359.5, 200.25], [45, 225, 315], [12.5, 12.5]):
+        for as_array in (False, True):
+            yield dict(angles=ang, as_array=as_array)
+
+
 def klass_align(inp, res):
     up = inp["upsample_factor"]
     return "upsample_factor=1" if up <= 1 else f"upsample_factor {'odd' if up % 2 else 'even'} >= 2"
@@ -1322,6 +1431,7 @@ def _guard(rt):
 
 rt_geometry, rt_rows, rt_weights, rt_align, rt_warp = _guard(rt_geometry), _guard(rt_rows), _guard(rt_weights), _guard(rt_align), _guard(rt_warp)
 rt_align_bookkeeping = _guard(rt_align_bookkeeping)
+rt_angles = _guard(rt_angles)
 
 
 def _knots_from_model(ev):
@@ -1366,6 +1476,8 @@ def conc_align(ev):
 
 
 C_AT.concretize, C_AT.rt, C_AT.rt_family = conc_align, rt_align_bookkeeping, fam_align_bookkeeping
+for _c in (C_SDSET, C_DCINIT):
+    _c.rt, _c.rt_family = rt_angles, fam_angles
 C_KDE.concretize, C_KDE.rt, C_KDE.rt_family = conc_weights, rt_weights, fam_weights
 C_WI.concretize, C_WI.rt, C_WI.rt_family = conc_rows, rt_warp, fam_warp
 for _c in (C_PP, C_PP3, C_PP4):
@@ -1380,6 +1492,7 @@ BOUNDED = [
     Bounded.from_rt("warp_image deposits pixel (r,c) at the coordinates of transform_coordinates", rt_warp, fam_warp, "4 shapes x 1..4 knots, random angle on a padded canvas and oblique angle on a canvas of the image size, 2 pixels each"),
     Bounded.from_rt("bilinear_kde / warp_image weight totals for arbitrary coordinates", rt_weights, fam_weights,
                     "4 point grids x 4 canvases x 3 sigmas x 3 batch sizes, coordinates up to 6 canvas sizes outside"),
+    Bounded.from_rt("stored scan directions are the given ones over [0, 360)", rt_angles, fam_angles, "6 angle lists incl. 180, 270, 359.5 x list / ndarray"),
     Bounded.from_rt("align_translation bookkeeping with prescribed shifts (cross-correlation replaced inside the checker process)", rt_align_bookkeeping, fam_align_bookkeeping,
                     "2 shapes x stacks 2..4 x 1..4 knots x random / zero shifts"),
     Bounded.from_rt("identical stack is a fixed point of align_translation", rt_align, fam_align,
